@@ -132,7 +132,7 @@ CLAIMED["C15"] = (
 CLAIMED["C18"] = (
     "Coq proof about a model of cff.EmitterStack (nested-inductive expressions, flattening) and about the event function of the operational flow model + correspondence: the real EmitterStack driven through every method on generated nestings with shared sub-stacks; every event of every generated execution recorded and checked",
     "EmitterStack: for every expression, nested to any depth, a call reaches exactly the user emitters of the expression, in order; an emitter occurring once receives exactly the event sequence it would receive "
-    "alone, one occurring n times every event n times (C18_stack_fanout, C18_stack_alone, C18_stack_count); over every session of Init calls and method calls on the child stacks they return (taskEmitterStack, flowEmitterStack, parallelEmitterStack, schedulerEmitterStack) an emitter occurring once sees what it would see alone, which for a session using a child only after creating it is the session itself, child for child (C18_session_alone, C18_session_sees_itself), an emitter outside the expression sees nothing and every call of the log is on an emitter of the expression (C18_session_absent, C18_session_only_members); tie: cmd/emsession drives the real EmitterStack through generated sessions (Init calls of the four kinds, Done/EmitScheduler on earlier children, recorders numbering their own children) and what each emitter saw is compared with EmitterSessionModel.session evaluated inside Coq. Flow events, for every flow/scenario/execution the scheduler can produce: an invoked task function "
+    "alone, one occurring n times every event n times (C18_stack_fanout, C18_stack_alone, C18_stack_count); over every session of Init calls and method calls on the child stacks they return (taskEmitterStack, flowEmitterStack, parallelEmitterStack, schedulerEmitterStack) an emitter occurring once sees what it would see alone, which for a session using a child only after creating it is the session itself, child for child (C18_session_alone, C18_session_sees_itself), an emitter outside the expression sees nothing and every call of the log is on an emitter of the expression (C18_session_absent, C18_session_only_members), and an emitter occurring n times sees every Init call n times (C18_session_init_count); tie: cmd/emsession drives the real EmitterStack through generated sessions (Init calls of the four kinds, Done/EmitScheduler on earlier children, recorders numbering their own children) and what each emitter saw is compared with EmitterSessionModel.session evaluated inside Coq. Flow events, for every flow/scenario/execution the scheduler can produce: an invoked task function "
     "yields exactly one outcome event matching what it did and exactly one TaskDone, a non-invoked one neither (C18_task_invoked, C18_task_not_invoked); exactly one Success/Error carrying the returned error, "
     "FlowDone once and last, TaskSkipped exactly once per non-invoked task and never for an invoked one (C18_flow_outcome_once, C18_flow_done_last, C18_skipped_once). Tie: 18 methods of the 4 emitter kinds with "
     "payload identity on the real stack; recorded events of generated flows with one or two stacked emitters under all single-failure scenarios.",
